@@ -157,11 +157,22 @@ def _operand(rng, ref, univ, kinds=OPD_KINDS, maxlen=7):
             xs.append(rng.choice(ref.l))
         else:
             xs.append(rng.randrange(univ))
-    if rng.random() < 0.15 and ref.l:
-        xs = list(ref.l) if rng.random() < 0.5 else rng.sample(ref.l, len(ref.l))   # equal to self as a set
-        if rng.random() < 0.5 and xs:
+    kind = rng.choice(kinds)
+    if rng.random() < 0.25 and ref.l:
+        # derived from the set itself: same items in the same / another order, one more, one less, a duplicate
+        xs = list(ref.l)
+        if rng.random() < 0.6:
+            rng.shuffle(xs)
+        q = rng.random()
+        if q < 0.2:
             xs.append(xs[0])
-    return [rng.choice(kinds), xs]
+        elif q < 0.4:
+            xs.insert(rng.randrange(len(xs) + 1), univ + 2)
+        elif q < 0.6:
+            xs.pop(rng.randrange(len(xs)))
+        if "iset" in kinds and rng.random() < 0.4:
+            kind = "iset"
+    return [kind, xs]
 
 
 def _operands(rng, ref, univ, kinds=OPD_KINDS):
@@ -225,7 +236,7 @@ SELF_KINDS = ["update", "iupdate", "dupdate", "sdupdate", "union", "inter", "dif
 
 
 def _setop(rng, ref, univ, sortable):
-    if rng.random() < 0.07:
+    if rng.random() < 0.10:
         # the operand is the set itself
         k = rng.choice(SELF_KINDS)
         form = rng.choice(["method", "operator"]) if k not in ("issubset", "issuperset", "isdisjoint") else "method"
@@ -267,16 +278,16 @@ def _setop(rng, ref, univ, sortable):
         ck = rng.choice(["eq", "ne", "le", "lt", "ge", "gt"])
         kinds = OPD_KINDS if ck in ("eq", "ne") else ["set", "frozenset", "iset"]
         o = _operand(rng, ref, univ, kinds)
-        if rng.random() < 0.3 and ref.l:             # same items: equal / reordered / one more / one less
+        if rng.random() < 0.5 and ref.l:             # same items: equal / reordered / one more / one less
             xs = list(ref.l)
             q = rng.random()
-            if q < 0.3:
+            if q < 0.4:
                 rng.shuffle(xs)
-            elif q < 0.5:
+            elif q < 0.55:
                 xs.append(univ + 1)
             elif q < 0.7:
                 xs.pop(rng.randrange(len(xs)))
-            o = [o[0], xs]
+            o = ["iset" if rng.random() < 0.5 else o[0], xs]
         return ["cmp", ck, o]
     if r < 0.91:
         return ["rsub", _operand(rng, ref, univ, ["set", "frozenset"])]
@@ -383,6 +394,8 @@ def _gen_deletion(rng, tier):
                 op = ["update", [["list", list(range(max(4, n // 2)))]], "method"]
         elif r < 0.80:
             op = _setop(rng, ref, univ, True)
+        elif r < 0.83:
+            op = ["self", rng.choice(SELF_KINDS), "method"]      # the set itself as operand while tombstones exist
         else:
             op = _read_op(rng, ref, univ)
         ops.append(op)
@@ -949,8 +962,19 @@ def _run_history(case, IndexedSet):
             stats["max_dead_intervals"] = max(stats["max_dead_intervals"], len(ded))
             adj = sum(1 for a, b in zip(ded, ded[1:]) if a[1] == b[0])
             stats["adjacent_unmerged"] = max(stats["adjacent_unmerged"], adj)
+        nslots = len(getattr(s, "item_list", ()))
+        if k in ("remove", "discard", "pop") and comp_now == stats["compactions"] and \
+                nslots < stats.get("_prev_slots", 0) - 1:
+            stats["right_trims"] = stats.get("right_trims", 0) + 1      # several trailing slots dropped at once
+        if isinstance(ded, list) and k in ("remove", "discard", "pop") and comp_now == stats["compactions"] and \
+                nslots == stats.get("_prev_slots", 0) and len(ded) == stats.get("_prev_ded_n", -1) and \
+                ob["len"] < stats.get("_prev_len", 0):
+            stats["interval_merges"] = stats.get("interval_merges", 0) + 1   # a tombstone joined an existing interval
+        stats["_prev_slots"] = nslots
+        stats["_prev_ded_n"] = len(ded) if isinstance(ded, list) else -1
+        stats["_prev_len"] = ob["len"]
         stats["compactions"] = getattr(s, "_compactions", 0)
-        stats["max_items"] = max(stats["max_items"], len(getattr(s, "item_list", ())))
+        stats["max_items"] = max(stats["max_items"], nslots)
     return {"steps": out, "stats": stats}
 
 
@@ -1117,6 +1141,11 @@ def shrink(case):
     out = []
     for m in (n // 4, n // 2, (3 * n) // 4, n - 1):
         out.append(cand(ops[:m]))
+    if n > 300:                      # the large stream: one evaluation costs ~20 CPU-s, prefixes only
+        for c in out:
+            if c is not None:
+                yield c
+        return
     for parts in (4, 8):
         size = max(1, n // parts)
         for s in range(0, n, size):
@@ -1186,6 +1215,8 @@ def distribution(d, case, obs):
     dep["max_dead_intervals"] = max(dep["max_dead_intervals"], stt.get("max_dead_intervals", 0))
     if stt.get("adjacent_unmerged"):
         dep["histories_with_adjacent_unmerged_intervals"] += 1
+    dep["right_trims_of_several_slots"] = dep.get("right_trims_of_several_slots", 0) + stt.get("right_trims", 0)
+    dep["interval_merges"] = dep.get("interval_merges", 0) + stt.get("interval_merges", 0)
     if stt.get("compaction_at_interval_limit"):
         dep["histories_over_384_intervals"] += 1
     dep["max_item_list"] = max(dep["max_item_list"], stt.get("max_items", 0))
